@@ -200,8 +200,11 @@ def design_paths(fn, iterable=False, bind=None):
             de = DesignEval(env)
             val = de.ev(st.value)
             if de.callee_env:
-                # the locals of the design this one is written in terms of (gain, denominator ...), where it has none
-                env = dict(de.callee_env, **env)
+                # the locals of the design this one is written in terms of (gain, denominator ...): they describe the
+                # result when the call is what is returned, and fill the gaps otherwise
+                pure = isinstance(st.value, ast.Call) and isinstance(st.value.func, ast.Attribute) and isinstance(
+                    st.value.func.value, ast.Name) and (st.value.func.value.id, st.value.func.attr) in STRATEGIES
+                env = dict(env, **de.callee_env) if pure else dict(de.callee_env, **env)
             out.append((val, env, st, trail))
     return out
 
